@@ -206,3 +206,42 @@ def concretize(model, vals: dict, max_len=10):
         return {k: conv(v) for k, v in vals.items()}
     except Exception:
         return None
+
+
+def patch_module_functions(relpath, patched_text):
+    """Canaries for engines that execute the real code natively: compile the patched module text in a scratch namespace and
+    graft every function / method whose code changed onto the live module objects.  Returns an undo() callable."""
+    import types
+
+    modname = api.module_name_of(relpath)
+    mod = importlib.import_module(modname)
+    ns = {"__name__": mod.__name__, "__package__": mod.__package__, "__file__": mod.__file__}
+    exec(compile(patched_text, mod.__file__, "exec"), ns)
+    undo = []
+
+    def code_of(f):
+        f = getattr(f, "__func__", f)
+        f = getattr(f, "fget", f) if isinstance(f, property) else f
+        return getattr(f, "__code__", None)
+
+    for name, new in ns.items():
+        old = mod.__dict__.get(name)
+        if isinstance(new, types.FunctionType) and isinstance(old, types.FunctionType) and new.__code__.co_code != old.__code__.co_code:
+            undo.append((mod, name, old))
+            setattr(mod, name, new)
+        elif isinstance(new, type) and isinstance(old, type):
+            for attr, nv in list(vars(new).items()):
+                ov = vars(old).get(attr)
+                c1, c2 = code_of(nv), code_of(ov) if ov is not None else None
+                if c1 is not None and (c2 is None or c1.co_code != c2.co_code or c1.co_consts != c2.co_consts):
+                    undo.append((old, attr, ov))
+                    setattr(old, attr, nv)
+
+    def restore():
+        for obj, attr, ov in reversed(undo):
+            if ov is None:
+                delattr(obj, attr)
+            else:
+                setattr(obj, attr, ov)
+
+    return restore, len(undo)
